@@ -17,7 +17,8 @@ EXPLANATION = ("The five sort functions are folded into a table (key expression,
                "bisects [lb, ub] (the feasible-edge invariant is C07's); in round robin a session is taken from the left, its level index "
                "advances by exactly 1 only on the feasible edge, it is re-appended to the right exactly when it advanced, nothing else "
                "ends the while loop, and a session leaves the queue only when its index is at its last level or the next level was "
-               "infeasible; the uncontrolled baseline writes [max_pilot_signal(station)] for each active session and nothing else.")
+               "infeasible; the uncontrolled baseline writes [max_pilot_signal(station)] for each active session and nothing else."
+               ' Added in round 3: feasibility-oracle rules (shared with C06), one fresh infrastructure description per call (shared with C07), per-station accessor table (shared with C13), the baseline mapping judged on its expanded comprehension.')
 NOT_DECIDED = ("that the granted rate is numerically the largest feasible one within the bisection tolerance (a statement about every "
                "alternative value); behaviour under ties of the priority key")
 
